@@ -150,8 +150,8 @@ def case_trial(R, res, lines, expect):
     for nme in names:
         t.metrics.register(nme, direction=R.choice(["min", "max"]))
         for _ in range(R.randint(0, 5)):
-            t.metrics.update(nme, R.choice([0.5, 1.0, -2.25, float("nan"), float("inf"), float("-inf"), 3]), step=R.choice([0, 1, 2, 5, 0]))
-    t.score = R.choice([None, 0.25, float("nan"), float("inf"), 2])
+            t.metrics.update(nme, R.choice([0.0, 0.5, 1.0, -2.25, float("nan"), float("inf"), float("-inf"), 3]), step=R.choice([0, 1, 2, 5, 0]))
+    t.score = R.choice([None, 0.25, float("nan"), float("inf"), 2, 0.0, 0.0, -0.0, 0])
     t.best_step = R.choice([None, 0, 3])
     t.message = R.choice([None, "Traceback ...\nValueError: x", ""])
     st = through_json(t.get_state())
